@@ -8,6 +8,7 @@ mod prog;
 mod props;
 mod report;
 mod rng;
+mod solo;
 mod world;
 
 use std::time::Instant;
@@ -77,15 +78,28 @@ fn main() {
 	}));
 	let t0 = Instant::now();
 	let rep: Report = match cfg.prop.as_str() {
-		"C01" | "C02" | "C05" => {
+		"conc" | "conc_retry" | "conc_panic" => {
+			let mut gen = prog::GenCfg::default();
+			if cfg.prop == "conc_retry" {
+				gen.retry_bias = true;
+			}
+			if cfg.prop == "conc_panic" {
+				gen.allow_panic = true;
+			}
 			let plan = props::conc::ConcPlan {
 				programs: ((if cfg.thorough { 20000.0 } else { 1200.0 }) * cfg.scale) as u64,
 				schedules: if cfg.thorough { 12 } else { 6 },
-				gen: prog::GenCfg::default(),
+				gen,
 				label: "concurrent",
 			};
 			props::conc::run(&cfg, &plan)
 		}
+		"dupfam" => props::dupfam::run(&cfg),
+		"nonacqfam" => props::nonacqfam::run(&cfg),
+		"orderfam" => props::orderfam::run(&cfg),
+		"seqfam" => props::seqfam::run(&cfg),
+		"tryfam" => props::tryfam::run(&cfg),
+		"blockfam" => props::tryfam::run_fam(&cfg, true),
 		_ => {
 			eprintln!("unknown property {}", cfg.prop);
 			std::process::exit(2);
